@@ -723,6 +723,83 @@ def r6_conditions(report, repo):
   lib.decision_table(report, rule, gr, ['act'], cl2, sp2)
 
 
+def r7_bookkeeping(report, repo):
+  rule = 'C02-R7'
+  report.rule(rule, 'T-DTABLE/T-MUST: what later nodes consult is written: the '
+              'phase record carries the subtest name iff the phase ran in a '
+              'subtest (SUBTEST checkpoints filter on it); every diagnosis is '
+              'added to the diagnoses store (branches, diagnosis checkpoints '
+              'and conditional validators read it) and, unless internal, to '
+              'the test record')
+  for q in ('PhaseExecutor._execute_phase_once', 'PhaseExecutor.skip_phase'):
+    f = repo.func(PE, q)
+    g = lib.cfg(f)
+    sets = lib.nodes_with_call(g, attr='set_subtest_name')
+    ctxs = [n for n in g.nodes if n.kind == 'with_enter' and any(
+        isinstance(s, ast.Call) and last_attr(s) == 'running_phase_context'
+        for s in n.subnodes())]
+    ok = len(sets) == 1 and len(ctxs) == 1
+    if ok:
+      sn, sc = sets[0]
+      ok = norm(sc.args[0]).endswith('subtest_rec.name') and \
+          g.dominated_by_edge(sn, lambda s_, l, d: s_.kind == 'test' and
+                              l == 'T' and dotted(s_.ast) == 'subtest_rec') and \
+          g.dominated_by(sn, lambda n: n is ctxs[0])
+      # reached whenever a subtest record exists
+      reach = g.reach([ctxs[0]], avoid=lambda n: n is sn, avoid_edge=lambda a, l,
+                      b: l == 'exc' or (a.kind == 'test' and l == 'F' and
+                                        dotted(a.ast) == 'subtest_rec'))
+      ok = ok and not any(n.kind == 'with_exit' and n.ast is ctxs[0].ast and
+                          n.tag in ('normal', 'ret') for n in reach)
+    report.check(ok, rule, f.qualname, 'subtest-name-recorded', f.node,
+                 '%s: the phase state gets the subtest name whenever a subtest '
+                 'record exists' % q,
+                 '%s does not record the subtest name on every path with a '
+                 'subtest record: subtest_previous checkpoints no longer see '
+                 'this phase' % q)
+  DL = 'openhtf/core/diagnoses_lib.py'
+  for q, var_rec in (('DiagnosesManager.execute_phase_diagnoser', 3),
+                     ('DiagnosesManager.execute_test_diagnoser', 2)):
+    f = repo.func(DL, q)
+    g = lib.cfg(f)
+    heads = [n for n in g.nodes if n.kind == 'for']
+    report.expect_instances(rule, len(heads), 1, 'diagnosis loops in ' + q)
+    h = heads[0]
+    var = dotted(h.ast.target)
+    body = h.succ('iter')
+    for what, pred in (
+        ('store', lambda c: call_name(c) == 'self._add_diagnosis' and
+         dotted(c.args[0]) == var),
+        ('test-record', lambda c: last_attr(c) == 'add_diagnosis' and dotted(
+            c.func.value) == lib.param_names(f.node)[var_rec] and
+         dotted(c.args[0]) == var)):
+      adds = [n for n, c in lib.nodes_with_call(g) if pred(c)]
+
+      def skip_edge(a, l, b, _what=what):
+        if l in ('exc', 'raise'):
+          return True
+        # internal diagnoses are not serialised into the test record
+        if _what == 'test-record' and a.kind == 'test' and dotted(
+            a.ast) == var + '.is_internal' and l == 'T':
+          return True
+        return False
+
+      if any(body is a for a in adds):
+        reach = []
+      else:
+        reach = [body] + g.reach([body], avoid=lambda n: any(n is a
+                                                            for a in adds),
+                                 avoid_edge=skip_edge)
+      ok = bool(adds) and not any(x is h or x is g.exit for x in reach)
+      report.check(ok, rule, f.qualname, 'diagnosis-to-' + what, h.ast,
+                   '%s: every diagnosis reaches the %s%s' % (
+                       q, what, ' (unless internal)' if what == 'test-record'
+                       else ''),
+                   '%s: a diagnosis can skip the %s: later branches / '
+                   'checkpoints / conditional validators (or the finalisation '
+                   'and the output) do not see it' % (q, what))
+
+
 def run(report, repo):
   r1_dispatch(report, repo)
   r2_r4_phase_and_checkpoint(report, repo)
@@ -730,6 +807,7 @@ def run(report, repo):
   r4_subtest(report, repo)
   r5_records(report, repo)
   r6_conditions(report, repo)
+  r7_bookkeeping(report, repo)
   # C02-R2 group sites are decided by the group table shared with C03
   from sa.rules import c03  # pylint: disable=g-import-not-at-top
   c03.group_table(report, repo, 'C02-R2')
